@@ -377,6 +377,10 @@ def check_names_bound(prog: Program, res, rule: str) -> None:
         for f in funcs:
             for x, place, val, pa, pb in crossed_roles(f):
                 res.violation(rule, f, x, f"`{place}` receives `{unparse(val)[:60]}` in {f.short}: what is named after `{pb}` is handed on as `{pa}` (and nothing named after `{pa}` is in it) — the two roles are swapped / one is used twice, silently", construct=f"{place}={unparse(val)[:40]}", key_extra=f"crossed-roles-{place}")
+            for x, nm in dropped_locals(f):
+                res.violation(rule, f, x, f"`{unparse(x)[:70]}` in {f.short}: the local `{nm}` is never read — what was computed / taken from the input here is dropped instead of being handed on", construct=f"{nm} = …", key_extra=f"dropped-local-{nm}")
+            for x, attr in unguarded_optional_members(prog, f):
+                res.violation(rule, f, x, f"`{unparse(x)[:50]}` in {f.short}: `{attr}` is an optional constituent of the object (None when it was not given) and nothing on the way here has tested it — AttributeError on None for every object without `{attr}`", construct=unparse(x)[:50], key_extra=f"optional-member-unguarded-{attr}")
             for alloc, store in integer_buffers(f):
                 res.violation(rule, f, alloc, f"`{unparse(alloc)[:70]}` allocates an integer-typed buffer and `{unparse(store)[:60]}` stores computed values into it: numpy truncates floating-point values (weighted counts, sums of weights, histograms of weighted objects) on the store, silently — the result is right only for integer-valued data", key_extra=f"integer-buffer-{alloc.targets[0].id}")
             for x, txt, sib in duplicated_siblings(f):
@@ -523,8 +527,9 @@ def crossed_roles(fi: FuncInfo) -> list:
         if isinstance(x, ast.Return) and x.value is not None and not (fi.name.startswith("__") and fi.name.endswith("__")):
             # an accessor named after one member hands out that member
             pairs.append((fi.name, x.value))
-        # both arms of a conditional expression are values of the place
-        pairs = [(pl, arm) for pl, v in pairs for arm in ([v.body, v.orelse] if isinstance(v, ast.IfExp) else [v])]
+        # both arms of a conditional expression are values of the place — and so is the name whose presence its test
+        # asks about (`self.zmin if zmin is NotSet else zmin`)
+        pairs = [(pl, arm) for pl, v in pairs for arm in ([v.body, v.orelse] + ([v.test.left] if isinstance(v.test, ast.Compare) and len(v.test.ops) == 1 and isinstance(v.test.ops[0], (ast.Is, ast.IsNot)) and isinstance(v.test.left, ast.Name) else []) if isinstance(v, ast.IfExp) else [v])]
         for place, val in pairs:
             if not _thin(val):
                 continue
@@ -668,12 +673,35 @@ def dropped_companions(prog: Program, fi: FuncInfo) -> list:
             tg = prog.resolve_call(fi, c)
         except Exception:  # noqa: BLE001
             continue
-        if not tg.precise:
+        callees = []
+        if tg.precise:
+            callees = [t for t in list(tg.funcs()) + [prog.find_method(ci, "__init__") for ci in tg.classes() if not ci.is_dataclass] if t is not None]
+        dispatched = False
+        if not callees and isinstance(c.func, ast.Name):
+            # a method picked by name: f = getattr(<object of a package class>, <name>) — any public method may be meant
+            from .dataflow import all_def_values
+
+            vals = [v for v in all_def_values(fi.node, c.func.id) if v is not None]
+            if len(vals) == 1 and isinstance(vals[0], ast.Call) and isinstance(vals[0].func, ast.Name) and vals[0].func.id == "getattr" and len(vals[0].args) >= 2:
+                ts = prog.func_env(fi).type_of(vals[0].args[0])
+                if ts and all(t[0] == "cls" and isinstance(t[1], ClassInfo) for t in ts):
+                    callees = [m for t in ts for m in t[1].methods.values() if not m.name.startswith("_") and not m.is_property]
+                    dispatched = bool(callees)
+            elif len(vals) == 1 and isinstance(vals[0], ast.Call):
+                # … or by a selector method of the class that returns getattr(self, <name>)
+                try:
+                    sel = [t for t in prog.resolve_call(fi, vals[0]).funcs() if t.cls is not None]
+                except Exception:  # noqa: BLE001
+                    sel = []
+                for m_ in sel:
+                    rets = [y.value for y in walk_no_nested(m_.node) if isinstance(y, ast.Return) and y.value is not None]
+                    me_ = (m_.param_names() or [None])[0]
+                    if rets and all(isinstance(r_, ast.Call) and isinstance(r_.func, ast.Name) and r_.func.id == "getattr" and len(r_.args) >= 2 and isinstance(r_.args[0], ast.Name) and r_.args[0].id == me_ for r_ in rets):
+                        callees += [m for m in m_.cls.methods.values() if not m.name.startswith("_") and not m.is_property and m is not m_ and not m.is_classmethod and not m.is_staticmethod]
+                dispatched = bool(callees)
+        if not callees or (getattr(c, "_kwpos", None) is None and not dispatched):
             continue
-        callees = [t for t in list(tg.funcs()) + [prog.find_method(ci, "__init__") for ci in tg.classes() if not ci.is_dataclass] if t is not None]
-        if not callees or getattr(c, "_kwpos", None) is None:
-            continue
-        bound = {pn for pn, _ in named_args(c)}
+        bound = {pn for pn, _ in named_args(c)} | {k.arg for k in c.keywords if k.arg}
         for opt in CARRIED:
             if not all(opt in t.param_names() for t in callees):
                 continue
@@ -725,4 +753,87 @@ def integer_buffers(fi: FuncInfo) -> list:
                     trivially_int = isinstance(v, ast.Constant) and isinstance(v.value, (int, bool)) or (isinstance(v, ast.Call) and isinstance(v.func, ast.Name) and v.func.id in ("len", "int", "bool", "range"))
                     if not trivially_int:
                         out.append((allocs[t.value.id], x))
+    return out
+
+
+# ----------------------------------------------------------------------------- dropped values, optional members
+
+
+def dropped_locals(fi: FuncInfo) -> list:
+    """[(assignment, name)]: a local that is assigned once-or-more by `name = <expr>` and never read anywhere in the
+    function (nested functions included): what was computed / taken from the input is dropped — typically the hand-over
+    to the constructor or to the next call was lost.  `_`-prefixed names, global / nonlocal names and tuple targets are
+    not judged.  (No instance on the pinned tree.)"""
+    loads = {x.id for x in ast.walk(fi.node) if isinstance(x, ast.Name) and isinstance(x.ctx, (ast.Load, ast.Del))}
+    outer = {n_ for x in ast.walk(fi.node) if isinstance(x, (ast.Global, ast.Nonlocal)) for n_ in x.names}
+    uses_locals = any(isinstance(y, ast.Call) and isinstance(y.func, ast.Name) and y.func.id in ("locals", "vars") for y in ast.walk(fi.node))
+    out = []
+    if uses_locals:
+        return out
+    for x in walk_no_nested(fi.node):
+        if isinstance(x, ast.Assign) and len(x.targets) == 1 and isinstance(x.targets[0], ast.Name):
+            nm = x.targets[0].id
+            if nm not in loads and nm not in outer and not nm.startswith("_") and not any(o[1] == nm for o in out):
+                out.append((x, nm))
+    return out
+
+
+def unguarded_optional_members(prog: Program, fi: FuncInfo) -> list:
+    """[(node, attr)]: `self.<member>.<x>` where <member> is an optional constituent of the object (a constructor
+    parameter annotated `… | None` that is kept under its own name, or a field annotated so) and no test on
+    `self.<member>` guards the access on the way to it"""
+    from .cfg import cfg_of
+
+    ci = fi.cls
+    if ci is None:
+        return []
+    if fi.name in ("__init__", "__post_init__", "__new__", "__setstate__"):
+        return []  # while the object is built the tests are on the parameters
+    opt = set()
+    init = prog.find_method(ci, "__init__")
+    names = prog.class_attr_names(ci)
+    if init is not None:
+        a = init.node.args
+        optional_params = {q.arg for q in [*a.args, *a.kwonlyargs] if q.annotation is not None and "None" in unparse(q.annotation)}
+        generic_store = any(isinstance(y, ast.Call) and isinstance(y.func, ast.Name) and y.func.id == "setattr" and len(y.args) == 3 and isinstance(y.args[1], ast.Name) for y in ast.walk(init.node))
+        for y in ast.walk(init.node):
+            # the member is stored as it was given: self.x = x (a raw optional parameter) or self.x = None
+            if isinstance(y, ast.Assign) and len(y.targets) == 1 and isinstance(y.targets[0], ast.Attribute) and isinstance(y.targets[0].value, ast.Name) and y.targets[0].value.id == init.param_names()[0]:
+                if isinstance(y.value, ast.Name) and y.value.id in optional_params:
+                    opt.add(y.targets[0].attr)
+        if generic_store:
+            opt |= {q for q in optional_params if q in names and q in (ci.slots or [])}
+    for k in [c for c in prog.mro(ci) if isinstance(c, ClassInfo) and c.is_dataclass]:
+        for nm, ann in k.class_ann.items():
+            if "None" in unparse(ann):
+                opt.add(nm)
+    # an attribute that some method re-assigns is not judged (it may be filled in later)
+    for m in [m_ for k in prog.mro(ci) if isinstance(k, ClassInfo) for m_ in k.methods.values() if m_.name not in ("__init__", "__post_init__")]:
+        for y in ast.walk(m.node):
+            if isinstance(y, (ast.Assign, ast.AugAssign, ast.AnnAssign)):
+                for t in (y.targets if isinstance(y, ast.Assign) else [y.target]):
+                    if isinstance(t, ast.Attribute) and isinstance(t.value, ast.Name) and t.attr in opt:
+                        opt.discard(t.attr)
+    if not opt:
+        return []
+    params = fi.param_names()
+    me = params[0] if params and not fi.is_staticmethod and not fi.is_classmethod else None
+    if me is None:
+        return []
+    out = []
+    cfg = None
+    for x in walk_no_nested(fi.node):
+        if isinstance(x, ast.Attribute) and isinstance(x.ctx, ast.Load) and isinstance(x.value, ast.Attribute) and isinstance(x.value.value, ast.Name) and x.value.value.id == me and x.value.attr in opt:
+            cfg = cfg or cfg_of(fi.node)
+            txt = f"{me}.{x.value.attr}"
+            guarded = any(txt in unparse(t) for nd in cfg.node_containing(x) for t, _pol in cfg.guards(nd))
+            if not guarded:
+                # a guard inside the same expression: `m is not None and m.x`, `m.x if m is not None else …`
+                for y in ast.walk(fi.node):
+                    if isinstance(y, (ast.BoolOp, ast.IfExp)) and any(z is x for z in ast.walk(y)):
+                        tests = y.values[:-1] if isinstance(y, ast.BoolOp) else [y.test]
+                        if any(txt in unparse(t) for t in tests):
+                            guarded = True
+            if not guarded and not any(o[1] == x.value.attr for o in out):
+                out.append((x, x.value.attr))
     return out
